@@ -157,7 +157,7 @@ pub fn eval(expr: Node) -> Result<Decimal, Box<dyn error::Error>> {
                 for arg in <Vec<Node> as Clone>::clone(&args).into_iter() {
                     #[cfg(feature = "verif_hooks")]
                     crate::verif_hooks::tick();
-                    result = eval(arg).unwrap().min(result);
+                    result = eval(arg)?.min(result);
                 }
                 Ok(result)
             } else {
@@ -173,7 +173,7 @@ pub fn eval(expr: Node) -> Result<Decimal, Box<dyn error::Error>> {
                 for arg in <Vec<Node> as Clone>::clone(&args).into_iter() {
                     #[cfg(feature = "verif_hooks")]
                     crate::verif_hooks::tick();
-                    result = eval(arg).unwrap().max(result);
+                    result = eval(arg)?.max(result);
                 }
                 Ok(result)
             } else {
@@ -188,7 +188,7 @@ pub fn eval(expr: Node) -> Result<Decimal, Box<dyn error::Error>> {
             for arg in <Vec<Node> as Clone>::clone(&args).into_iter() {
                 #[cfg(feature = "verif_hooks")]
                 crate::verif_hooks::tick();
-                result += eval(arg).unwrap();
+                result += eval(arg)?;
             }
             Ok(result / Decimal::new(args.len() as i64, 0))
         }
@@ -197,7 +197,7 @@ pub fn eval(expr: Node) -> Result<Decimal, Box<dyn error::Error>> {
             for arg in <Vec<Node> as Clone>::clone(&args).into_iter() {
                 #[cfg(feature = "verif_hooks")]
                 crate::verif_hooks::tick();
-                results.push(eval(arg).unwrap());
+                results.push(eval(arg)?);
             }
             results.sort_by(|a, b| a.partial_cmp(b).unwrap());
             let len = results.len();
